@@ -180,6 +180,9 @@ func getObjPrototype() *Value {
 				Tag: ValueNativeFn,
 				NativeFn: func(e *Evaluator, v []*Value, this *Value) (*Value, error) {
 					newObj := NewObject()
+					if this == nil {
+						return &newObj, nil
+					}
 					for _, value := range v {
 						val, err := this.GetMember(*value)
 						if err != nil {
